@@ -63,3 +63,19 @@ fn c08_pidman_step_u16() {
     }
     core::mem::forget(m);
 }
+
+/// Manager whose in-use identifiers are exactly `used` (ascending, pairwise non-adjacent, 1 < id < 65535):
+/// the free pool is written down directly (k + 1 runs), so the pre-state has a concrete shape and no
+/// allocator operation has to be executed symbolically to reach it.
+pub(crate) fn mk_pidman(used: &[u16]) -> PacketIdManager<u16> {
+    let mut ivs: [(u16, u16); 4] = [(0, 0); 4];
+    let mut lo: u16 = 1;
+    let mut k = 0;
+    while k < used.len() {
+        ivs[k] = (lo, used[k] - 1);
+        lo = used[k] + 1;
+        k += 1;
+    }
+    ivs[k] = (lo, u16::MAX);
+    PacketIdManager::<u16> { allocator: mk_alloc_u16(1, u16::MAX, &ivs[..k + 1]) }
+}
